@@ -177,7 +177,19 @@ def run_stream(sc: dict, wall_limit: float = 60.0) -> dict:
         loop_errors: list[str] = []
         loop.set_exception_handler(lambda l, c: loop_errors.append(f"{c.get('message')}: {c.get('exception')!r}"[:200]))
         cluster = fakeapi.Cluster([fakeapi.NAMESPACES, fakeapi.CRDS, KEX])
-        session = fakeapi.FakeSession(cluster, "stream")
+        obs: list = [["init", cluster.rv]]
+        state: dict = {"on": True, "res": KEX}
+
+        class ObsSession(fakeapi.FakeSession):
+            """logs every HTTP attempt (first ones and those re-sent by api.request's retry loop)"""
+            async def request(self, method: str, url: str, **kw: Any) -> Any:  # type: ignore[override]
+                if state["on"] and method.upper() == "GET" and "kopfexamples" in url:
+                    q = url.split("?", 1)[1] if "?" in url else ""
+                    params = dict(p.split("=", 1) for p in q.split("&") if "=" in p)
+                    obs.append(["http", "watch" if params.get("watch") == "true" else "list", params.get("resourceVersion")])
+                return await super().request(method, url, **kw)
+
+        session = ObsSession(cluster, "stream")
         vault = credentials.Vault({"fake": credentials.AiohttpSession(
             aiohttp_session=session, server="http://fake", default_namespace="default")})  # type: ignore[arg-type]
         auth.vault_var.set(vault)
@@ -185,8 +197,6 @@ def run_stream(sc: dict, wall_limit: float = 60.0) -> dict:
         ns = sc.get("ns")
         resource = references.Resource("kopf.dev", "v1", "kopfexamples", kind="KopfExample", namespaced=True,
                                        verbs=frozenset(["list", "watch", "patch"]))
-        obs: list = [["init", cluster.rv]]
-        state: dict = {"on": True, "res": KEX}
         paused = _make_toggleset(obs, state)
         toggle = await paused.make_toggle(False, name="script")
         bump = {"n": 0}
@@ -532,6 +542,15 @@ def run_operator(sc: dict, wall_limit: float = 60.0) -> dict:
                 cluster.compact(RES_BY_NAME[o[1]])
             elif name == "http410":
                 cluster.http_410 = bool(o[1])
+            elif name == "fail":
+                rule = {"plural": o[1], "status": int(o[2]), "count": int(o[3])}
+
+                def fault_rule(req: dict, rule: dict = rule) -> Any:
+                    if req["method"] == "GET" and req["path"].rstrip("/").endswith("/" + rule["plural"]) and rule["count"] > 0:
+                        rule["count"] -= 1
+                        return fakeapi.Fault("status", rule["status"])
+                    return None
+                cluster.fault_rules.append(fault_rule)
             elif name == "check":
                 checkpoints.append({
                     "t": loop.time(),
@@ -568,6 +587,8 @@ def run_operator(sc: dict, wall_limit: float = 60.0) -> dict:
                                        if r["method"] == "GET" and r["query"].get("watch") == "true"],
                     "not_found": sorted({r["path"].rstrip("/").split("/")[-1] for r in cluster.requests
                                          if r["method"] == "GET" and r["response"] == 404}),
+                    "not_found_at": {r["path"].rstrip("/").split("/")[-1]: r["t"] for r in cluster.requests
+                                     if r["method"] == "GET" and r["response"] == 404},
                     "history": {f"{k[0][2]}/{k[1]}/{k[2]}": [[v["t"], v["event"], v["body"]["metadata"]["resourceVersion"]] for v in vs]
                                 for k, vs in cluster.history.items() if k[0][2] not in META}}
         finally:
